@@ -355,6 +355,29 @@ func (v c17Val) trigBytesList() bool {
 	return false
 }
 
+// c17BytesListAsDecoded models the listed defect: onos-api stores the concatenated bytes plus the entry
+// lengths, and its decoder closes at most one entry per byte, so after an empty entry at index >= 1 the
+// boundaries slip (entries vanish or merge).
+func c17BytesListAsDecoded(ys [][]byte) [][]byte {
+	var all []byte
+	for _, y := range ys {
+		all = append(all, y...)
+	}
+	out := [][]byte{}
+	buf := []byte{}
+	idx, startAt := 0, 0
+	for i, b := range all {
+		if n := len(ys[idx]); i-startAt == n {
+			out = append(out, buf)
+			buf = []byte{}
+			idx++
+			startAt += n
+		}
+		buf = append(buf, b)
+	}
+	return append(out, buf)
+}
+
 func c17Pow10(p int) *big.Int {
 	return new(big.Int).Exp(big.NewInt(10), big.NewInt(int64(p)), nil)
 }
@@ -525,7 +548,7 @@ func c17CheckJSONElem(prop string, v c17Val, i int, jv any, rfc bool, rep c17Rep
 		if float32(p) == f {
 			return nil // the digits identify the float32 (shortest-form JSON numbers land here)
 		}
-		if math.Abs(p-float64(f)) > 5e-7 {
+		if math.Abs(p-float64(f)) > 5e-7+math.Abs(p)*0x1p-50 { // exact ties (-1.9296875 -> "-1.929688") sit on the bound: allow the parse rounding
 			return fmt.Errorf("rendered as %q = %v, which is neither the float32 %v nor within 5e-7 of it", text, p, f)
 		}
 		if c17TrigFloatFmt(f) && !v.List && rfc && vstat.IsKnown(prop, c17FFloatFmt) {
@@ -954,7 +977,7 @@ func c17GenDigits(s c17Src, prec int) int64 {
 }
 
 var c17FloatPalette = []uint32{0, 0x3f800000, 0xbf800000, 0x3fc00000, 0x3dcccccd, 0x80000000, 0x7f7fffff, 0xff7fffff, 1, 0x00800000, 0x4b800000,
-	0x4b800001, 0x33d6bf95, 0x47f12065, 0x3eaaaaab, 0x42f6e979, 0x7f800000, 0xff800000, 0x358637bd, 0xb58637bd}
+	0x4b800001, 0x33d6bf95, 0x47f12065, 0x3eaaaaab, 0x42f6e979, 0x7f800000, 0xff800000, 0x358637bd, 0xb58637bd, 0xbff70000}
 
 func c17GenFloat(s c17Src) uint32 {
 	if s.Intn(3, "fmode") < 2 {
@@ -1196,15 +1219,31 @@ func c17Check(c c17Case, rep c17Rep) error {
 			return fmt.Errorf("%s: NativeTypeToGnmiTypedValue failed for %s: %v", it.Path, v, err)
 		}
 		if !c17SameGnmi(g, back) {
+			strict := fmt.Errorf("%s: round trip changed the value: set %s = %v, got back %v", it.Path, v, g, back)
+			// A listed onos-api deviation must explain the difference exactly; the journey then goes on with
+			// the value as stored (downstream stages have to carry THAT value faithfully).
+			dev := v
 			switch {
 			case v.trigSep() && vstat.IsKnown(prop, c17FSep):
+				dev.S = strings.Split(strings.Join(v.S, "\x1d"), "\x1d")
+				if dev.Kind == "ascii" {
+					dev.Kind = "string"
+				}
+				if !c17SameGnmi(dev.gnmi(), back) {
+					return fmt.Errorf("%v (not explained by %s alone)", strict, c17FSep)
+				}
 				rep.Known(c17FSep, "a string leaf-list entry containing byte 0x1D is split in two (onos-api joins entries with 0x1D)")
-				continue // the value is already broken: nothing downstream to compare
 			case v.trigBytesList() && vstat.IsKnown(prop, c17FBytesList):
-				rep.Known(c17FBytesList, "an empty entry at index >= 1 of a binary leaf-list disappears (onos-api TypedLeafListBytes.List)")
-				continue
+				dev.Y = c17BytesListAsDecoded(v.Y)
+				if !c17SameGnmi(dev.gnmi(), back) {
+					return fmt.Errorf("%v (not explained by %s alone)", strict, c17FBytesList)
+				}
+				rep.Known(c17FBytesList, "a binary leaf-list with an empty entry at index >= 1 comes back with entries missing or merged (onos-api TypedLeafListBytes.List closes one entry per byte)")
+			default:
+				return strict
 			}
-			return fmt.Errorf("%s: round trip changed the value: set %s = %v, got back %v", it.Path, v, g, back)
+			v, g = dev, dev.gnmi()
+			it.Val = dev
 		}
 		// the stored value must carry the model's width / precision: the JSON rendering is driven by it
 		_, topts := ops.head(native)
